@@ -88,13 +88,14 @@ def audit(check, modules, theorems):
     # (T) regenerate the tables of the model from /repo's working tree; the *Tie theorems compare them with the model
     r = subprocess.run(["/venv/bin/python", os.path.join(VERIF, "tools", "extract.py")], capture_output=True, text=True, cwd=VERIF)
     check.extra["extract"] = (r.stdout.strip().split("\n") or [""])[-1]
+    check.extra["translated_cores"] = [ln[len("extract: core "):] for ln in r.stdout.split("\n") if ln.startswith("extract: core ")]
     if r.returncode != 0:
         check.break_("tools/extract.py could not read the tables off /repo (the source no longer has the shape the translator reads)",
                      {"log_tail": (r.stdout + r.stderr)[-2000:]})
         return False
-    ok, log = lake_build()
-    if ok:
-        ok, log = lake_build(list(modules))
+    # only what this property needs: the driver (the models) and the property's own modules, so that a proof obligation
+    # of another property that no longer builds is reported by that property's check alone
+    ok, log = lake_build(["driver"] + list(modules))
     if not ok:
         # which module failed?
         failed = re.findall(r"error: (\S+\.lean):(\d+)", log)
